@@ -78,11 +78,34 @@ class CrashingFile:
         return getattr(self.real, name)
 
 
+FAULT = {"armed": False}
+
+
+def fs_kwargs(kind):
+    """Further constructor options of the catalogue kinds: `coverage` names only start times and gets the end from the
+    time_coverage OPTION; `faulty` asks a handler as well (info_via='both') whose get_info fails while FAULT is armed."""
+    if kind == "coverage":
+        return {"time_coverage": "1 hour"}
+    if kind == "faulty":
+        from typhon.files.handlers.common import FileHandler, FileInfo
+        class Handler(FileHandler):
+            def get_info(self, file_info, **kw):
+                if FAULT["armed"]:
+                    raise IOError("transient failure while looking into the file")
+                return FileInfo(file_info.path, [None, None], {"orbit": "orbit-" + os.path.basename(file_info.path)[:1]})
+        return {"handler": Handler(), "info_via": "both"}
+    return {}
+
+
 def make_catalogue(kind, root):
     """-> template, {entry id: path}, FileSet kwargs"""
     os.makedirs(os.path.join(root, "data"), exist_ok=True)
     paths = {}
-    if kind == "temporal":
+    if kind == "coverage":
+        tmpl = os.path.join(root, "data", "{sat}_{year}{month}{day}T{hour}{minute}{second}{microsecond}.dat")
+        names = {1: "A_20191231T235959999999.dat", 2: "B_20200229T120000000500.dat",
+                 3: "A_99991231T225959999999.dat"}             # + 1 hour = datetime.max
+    elif kind in ("temporal", "faulty"):
         tmpl = os.path.join(root, "data", "{sat}_{year}{month}{day}T{hour}{minute}{second}{microsecond}-"
                                           "{end_year}{end_month}{end_day}T{end_hour}{end_minute}{end_second}{end_microsecond}.dat")
         names = {1: "A_20191231T235959999999-20200101T000000000001.dat",
@@ -141,6 +164,9 @@ def corrupt(path, variant, rng_n):
         f.write(new)
 
 
+KINDS4 = ["temporal", "nontemporal", "coverage", "faulty"]
+
+
 def replay(col, item):
     import typhon.files.fileset as FM
     from typhon.files import FileSet
@@ -155,13 +181,24 @@ def replay(col, item):
         tmpl, paths = make_catalogue(kind, root)
         FM.atexit = NoAtexit()
         truth = {}
-        fs = FileSet(tmpl, info_cache=cache)
+        fs = FileSet(tmpl, info_cache=cache, **fs_kwargs(kind))
         corrupted = False
         i = 0
         fingerprint_extra = ""
         while i < len(hist):
             a, arg = hist[i]
             if a == "touch":
+                if kind == "faulty" and paths[arg] not in fs.info_cache:
+                    # the first look at the file fails (the caller survives it); the second one succeeds
+                    FAULT["armed"] = True
+                    try:
+                        fs.get_info(paths[arg])
+                        col.violation("failing-handler-went-unnoticed", dict(rep, at_step=i))
+                        return
+                    except IOError:
+                        pass
+                    finally:
+                        FAULT["armed"] = False
                 info = fs.get_info(paths[arg])
                 truth[arg] = project(info)
             elif a == "save_open":
@@ -311,7 +348,7 @@ def replay(col, item):
                     warnings.simplefilter("always")
                     try:
                         FM.atexit = NoAtexit()          # only the new object's registrations count from here on
-                        fs = FileSet(tmpl, info_cache=cache)
+                        fs = FileSet(tmpl, info_cache=cache, **fs_kwargs(kind))
                         exc = None
                     except Exception as ex:
                         exc = ex
@@ -343,7 +380,7 @@ def replay(col, item):
             col.violation("warning-" + ("missing" if case["warned"] else "spurious"), dict(rep, observed={"warned": got_warn}))
         else:
             # FindSame: find() answers identically with and without the loaded cache
-            plain = FileSet(tmpl)
+            plain = FileSet(tmpl, **fs_kwargs(kind))
             a1 = sorted(project(x) for x in fs.find(no_files_error=False))
             a2 = sorted(project(x) for x in plain.find(no_files_error=False))
             if a1 != a2:
@@ -369,7 +406,7 @@ def truncation_sweep(col, kind):
         FM.atexit = NoAtexit()
         tmpl, paths = make_catalogue(kind, root)
         cache = os.path.join(root, "cache.json")
-        fs = FileSet(tmpl, info_cache=cache)
+        fs = FileSet(tmpl, info_cache=cache, **fs_kwargs(kind))
         truth = {}
         for e in (1, 2):
             truth[paths[e]] = project(fs.get_info(paths[e]))
@@ -387,7 +424,7 @@ def truncation_sweep(col, kind):
             with warnings.catch_warnings(record=True) as w:
                 warnings.simplefilter("always")
                 try:
-                    g = FileSet(tmpl, info_cache=cache)
+                    g = FileSet(tmpl, info_cache=cache, **fs_kwargs(kind))
                 except Exception as ex:
                     col.violation("restart-raises-" + type(ex).__name__ + "-corrupt",
                                   {"abstract": {"history": "save; truncate at byte %d; restart" % cut}, "concrete": {"catalogue": kind},
@@ -441,7 +478,7 @@ def run(ctx):
     items = []
     for n, c in enumerate(cases):
         has_corrupt = any(h[0] == "corrupt" for h in c["hist"])
-        for k in ((["temporal", "nontemporal"][n % 2],) if quick else ("temporal", "nontemporal")):
+        for k in ((KINDS4[n % 4],) if quick else KINDS4):
             for v in (range(8) if has_corrupt else (0,)):
                 items.append((c, k, n, v))
     ctx.notes["histories_ending_in_a_restart"] = len(cases)
@@ -452,7 +489,7 @@ def run(ctx):
         items = ctx.rng.sample(items, CAP)
         ctx.exhaustive = False
     pmap(ctx, replay, items)
-    pmap(ctx, truncation_sweep, ["temporal", "nontemporal"], procs=1)
+    pmap(ctx, truncation_sweep, ["temporal", "nontemporal", "coverage"], procs=1)
     if ctx.notes.get("crash_point_not_reached"):
         ctx.notes["crash_note"] = ("some crash points could not be reached through typhon.files.fileset.open/shutil (save_cache "
                                    "restructured?): those histories were replayed without the crash")
